@@ -1,8 +1,9 @@
 package harness
 
 // C08 trace emission: which leveraged-LP positions changed in a step (from the position store before
-// and after), as LOpen / LClose operations, plus the pool total, open counter and, for every touched
-// or stored position, its amount and the shares committed at its address.
+// and after), as (pool, LOpen / LClose) operations of coq/Models/LevLedgerMulti.v, plus EVERY leveraged-LP pool's recorded
+// total, the module's open counter and, for every touched or stored position, its pool, its amount and the shares
+// committed at its address.
 
 import (
 	"fmt"
@@ -68,18 +69,22 @@ func (c *c08Tracer) step() {
 		}
 		switch {
 		case a.GT(b):
-			ops = append(ops, fmt.Sprintf("LOpen %d %s", c.id(k), zstr(a.Sub(b).BigInt())))
+			ops = append(ops, fmt.Sprintf("(%d%%nat, LOpen %d %s)", c01PoolIdx(c.x.m, after.AmmPoolId), c.id(k), zstr(a.Sub(b).BigInt())))
 			touched[k] = true
 			c.opens++
 		case a.LT(b):
-			ops = append(ops, fmt.Sprintf("LClose %d %s", c.id(k), zstr(b.Sub(a).BigInt())))
+			ref := before
+			if has {
+				ref = after
+			}
+			ops = append(ops, fmt.Sprintf("(%d%%nat, LClose %d %s)", c01PoolIdx(c.x.m, ref.AmmPoolId), c.id(k), zstr(b.Sub(a).BigInt())))
 			touched[k] = true
 			c.closes++
 		}
 	}
-	total := sdkmath.ZeroInt()
+	var totals []string
 	for _, lp := range w.App.LeveragelpKeeper.GetAllPools(ctx) {
-		total = total.Add(lp.LeveragedLpAmount)
+		totals = append(totals, fmt.Sprintf("(%d%%nat,%s)", c01PoolIdx(c.x.m, lp.AmmPoolId), zstr(lp.LeveragedLpAmount.BigInt())))
 	}
 	var pos []string
 	for _, k := range ks {
@@ -94,13 +99,13 @@ func (c *c08Tracer) step() {
 		}
 		cmts := w.App.CommitmentKeeper.GetCommitments(ctx, ref.GetPositionAddress())
 		cm := cmts.GetCommittedAmountForDenom(ammtypes.GetPoolShareDenom(ref.AmmPoolId))
-		pos = append(pos, fmt.Sprintf("(%d%%nat,%s,%s)", c.id(k), zstr(amt.BigInt()), zstr(cm.BigInt())))
+		pos = append(pos, fmt.Sprintf("(%d%%nat,%d%%nat,%s,%s)", c01PoolIdx(c.x.m, ref.AmmPoolId), c.id(k), zstr(amt.BigInt()), zstr(cm.BigInt())))
 	}
-	c.steps = append(c.steps, fmt.Sprintf("([%s], mkLO %s %d [%s])", strings.Join(ops, ";"), zstr(total.BigInt()),
+	c.steps = append(c.steps, fmt.Sprintf("([%s], mkMLO [%s] %d [%s])", strings.Join(ops, ";"), strings.Join(totals, ";"),
 		w.App.LeveragelpKeeper.GetOpenPositionCount(ctx), strings.Join(pos, ";")))
 	c.prev = cur
 }
 
 func (c *c08Tracer) caseText(id int) string {
-	return fmt.Sprintf("mkLevC %d [\n  %s]", id, strings.Join(c.steps, ";\n  "))
+	return fmt.Sprintf("mkMLevC %d [\n  %s]", id, strings.Join(c.steps, ";\n  "))
 }
